@@ -723,7 +723,7 @@ def __and__(self, other):
                     return a_coord
 
             elif len_a < len_b:
-                if isinstance(a_coord, int):
+                if not isinstance(a_coord, tuple):
                     extra = (ANY,) * (len_b - 1)
                     a = self.a_fiber.project(trans_fn=lambda c: (c,) + extra).__iter__(tick=False)
                 else:
@@ -740,7 +740,7 @@ def __and__(self, other):
 
             # len_a > len_b
             else:
-                if isinstance(b_coord, int):
+                if not isinstance(b_coord, tuple):
                     extra = (ANY,) * (len_a - 1)
                     b = self.b_fiber.project(trans_fn=lambda c: (c,) + extra).__iter__(tick=False)
                 else:
